@@ -19,14 +19,14 @@ SeqToSet(s) == {s[i] : i \in 1..Len(s)}
 
 \* ---------------------------------------------------------------- C26
 VarintEnc(r) ==
-  LET t == FirstTerm(r.bytes, 1) IN
-  Chk("C26.encode", r.bytes # <<>> /\ t = Len(r.bytes) /\ t <= 19 /\ VarintValue(r.bytes, t) = r.n
+  LET term == FirstTerm(r.bytes, 1) IN
+  Chk("C26.encode", r.bytes # <<>> /\ term = Len(r.bytes) /\ term <= 19 /\ VarintValue(r.bytes, term) = r.n
                     /\ (Len(r.bytes) > 1 => r.bytes[Len(r.bytes)] # 0), r)
 VarintDec(r) ==
-  LET t == FirstTerm(r.bytes, 1)
-      fits == t # 0 /\ t <= 19 /\ (t = 19 => r.bytes[19] % 128 <= 3)
+  LET term == FirstTerm(r.bytes, 1)
+      fits == term # 0 /\ term <= 19 /\ (term = 19 => r.bytes[19] % 128 <= 3)
   IN /\ Chk("C26.total", r.res # "panic", r)
-     /\ IF fits THEN Chk("C26.value", r.res = "ok" /\ r.len = t /\ r.n = VarintValue(r.bytes, t), r)
+     /\ IF fits THEN Chk("C26.value", r.res = "ok" /\ r.len = term /\ r.n = VarintValue(r.bytes, term), r)
         ELSE Chk("C26.error", r.res # "ok" /\ VarintErrOk(r.bytes, r.res), r)
 
 \* ---------------------------------------------------------------- C29 / C30
